@@ -29,7 +29,7 @@ RULE = ("cases: fitter configurations with <= k deviations from the default; exe
 ASSUMPTIONS = ["finite value alphabets (DESIGN.md section 0)", "theta*dmin not below the smallest aperture (precondition)",
                "sources have >= 1 fitted point with non-zero extinction coefficient"]
 REQUIRED_CLASSES = ['n_distances==1', 'aperture-beyond-table', 'best-at-first', 'best-interior', 'best-at-last', 'av-clipped-some-distances',
-                    'range-multiple-of-step', 'range-exact-multiple-exact-arithmetic', 'float32-path', 'limit-violated', 'non-monotone-growth', 'mixed-theta', 'request-on-smallest-aperture', 'distance-range-in-other-unit']
+                    'range-multiple-of-step', 'range-exact-multiple-exact-arithmetic', 'float32-path', 'limit-violated', 'non-monotone-growth', 'mixed-theta', 'request-on-smallest-aperture', 'distance-range-in-other-unit', 'apertures-in-other-angular-unit']
 TIMEOUT = {'quick': 300, 'thorough': 1800}
 
 AXES = {
@@ -41,6 +41,7 @@ AXES = {
     'avr': [(-40.0, 40.0), (0.0, 1.0), (2.5, 2.5)],
     'theta': ['uniform', 'mixed'],
     'dunit': ['kpc', 'pc', 'cm'],
+    'tunit': ['arcsec', 'arcmin', 'rad'],
 }
 VARIANTS = [('v1', False, False), ('v2', True, False), ('v2', False, False), ('v2', True, True)]
 BANDS = ['B1', 'B3', 'B5']
@@ -91,6 +92,8 @@ def run_case(ctx, case, rec, d):
         rec.cls('mixed-theta')
     if case.get('dunit', 'kpc') != 'kpc':
         rec.cls('distance-range-in-other-unit')
+    if case.get('tunit', 'arcsec') != 'arcsec':
+        rec.cls('apertures-in-other-angular-unit')
     ap, tables = fc.grid3d(seed * 10 + 1, n_models=5, n_ap=case['n_ap'], bands=BANDS, monotone=(case['grid'] != 'arbitrary'),
                            irregular=(case['grid'] == 'irregular'))
     if case['grid'] == 'arbitrary':
@@ -103,12 +106,13 @@ def run_case(ctx, case, rec, d):
     md = fc.build_package(d, 'pkg', spec)
     cfg_key = tuple(sorted((k, str(v)) for k, v in case.items()))
     try:
-        fitter = fc.make_fitter(md, BANDS, 'power', (avlo, avhi), distance_range_kpc=(dmin, dmax), theta=theta, memmap=memmap, by_wavelength=bywav, dunit=case.get('dunit', 'kpc'))
+        fitter = fc.make_fitter(md, BANDS, 'power', (avlo, avhi), distance_range_kpc=(dmin, dmax), theta=theta, memmap=memmap, by_wavelength=bywav, dunit=case.get('dunit', 'kpc'), tunit=case.get('tunit', 'arcsec'), as_tuple=(case.get('_deviations', 0) % 2 == 1))
     except Exception as e:
         # the request as the natural float expression gives it (arcsec x distance in pc): a refusal is acceptable only
         # if rounding really puts it below the smallest tabulated aperture
         from astropy import units as u
-        req = min(theta) * ((dmin * u.kpc).to(u.Unit(case.get('dunit', 'kpc'))).to(u.pc).value)
+        theta_seen = (np.array(theta) * u.arcsec).to(u.Unit(case.get('tunit', 'arcsec'))).to(u.arcsec).value      # after the round trip through the given unit
+        req = min(theta_seen) * ((dmin * u.kpc).to(u.Unit(case.get('dunit', 'kpc'))).to(u.pc).value)
         if case['range'] == 'onsmallest' and 'too small' in str(e) and req < ap[0] and abs(req - ap[0]) <= 4 * np.spacing(ap[0]):
             rec.notes['conformant-refusal-within-4ulp-of-smallest-aperture'] += 1
             rec.cls('request-on-smallest-aperture')
